@@ -1609,6 +1609,7 @@ def rule_collect(repo):
         fa = analyse(repo, rel_, qual)
         seen = {'str': None, 'tuple': None, 'list': None}
         free = {'str': False, 'tuple': False, 'list': False}     # some push of that kind does not need the filter to accept
+        pushes = []      # (key symbol text or None, [(condition on the key, polarity)], needs the filter to accept)
         fparam = fa.func.args.args[1].arg if len(fa.func.args.args) > 1 else None
         for p in fa.paths:
             accepted_only = any(pol and any(isinstance(x, ast.Name) and x.id == fparam for x in ast.walk(t))
@@ -1636,21 +1637,16 @@ def rule_collect(repo):
                     continue
                 keysym = [ast.Name(id=sid, ctx=ast.Load()) for sid, dd in fa.ex.defs.items()
                           if dd.kind == 'iter' and dd.index == (0,) and dd.node is d.node and same(dd.expr, src)]
-                ks = [k for k in keysym if any(norm(k) in norm(t) for t, _ in p.atoms())]
-                if not ks:
-                    seen['str'] = seen['str'] if seen['str'] is not None else []
-                    seen['tuple'] = seen['tuple'] if seen['tuple'] is not None else []
-                    seen['str'].append([])
-                    free['str'] = free['str'] or not accepted_only
-                    free['tuple'] = free['tuple'] or not accepted_only
-                    continue
-                k = norm(ks[0])
-                filt = [(t, pol) for t, pol in p.atoms() if k in norm(t)]
-                for kind in ('str', 'tuple'):
-                    if any(norm(t) == f"isinstance({k}, {kind})" and pol for t, pol in filt):
-                        rest = [(t, pol) for t, pol in filt if not norm(t).startswith('isinstance(')]
-                        seen[kind] = (seen[kind] or []) + [(k, rest)]
-                        free[kind] = free[kind] or not accepted_only
+                # the push condition on the key, evaluated below over the key kinds (public str, private str, tuple)
+                kn = [norm(k) for k in keysym]
+                conds_k = [(c.test, c.polarity) for c in p.conds if any(k in norm(c.test) for k in kn)]
+                key = next((k for k in kn if any(k in norm(t) for t, _ in conds_k)), None)
+                pushes.append((key, conds_k, accepted_only))
+        for kind_, smp in (('str', samples), ('tuple', [(1, 3)])):
+            hit = [pu for pu in pushes for x in smp if _key_reaches(pu, x)]
+            if hit:
+                seen[kind_] = []
+                free[kind_] = any(not pu[2] for pu in hit)
         # descending must not depend on the verdict of the filter, and the worklist loop must visit every element
         r.evaluations += 1
         dep = [k for k in kinds_ if seen[k] is not None and not free[k]]
@@ -1684,35 +1680,42 @@ def rule_collect(repo):
                 continue
             if kind == 'str':
                 bad = None
-                for ent in seen['str']:
-                    if not ent:
-                        bad = "public/private filter missing"
-                        continue
-                    k, rest = ent
-                    filt = [(ast.parse(norm(t).replace(k, 'KEY'), mode='eval').body, pol) for t, pol in rest]
-                    for s in samples:
-                        r.evaluations += 1
-                        c = accepts(filt, 'KEY', s)
-                        h = accepts(hook_filter, nme, s)
-                        if c and not h:
-                            bad = (f"attribute named {s!r} is collected but the setattr hook never names it: repr() of the "
-                                   f"collected object is not a hierarchical name")
-                        elif h and not c:
-                            bad = f"attribute named {s!r} is named by the hook but never collected"
+                for smp in samples:
+                    r.evaluations += 1
+                    c = any(_key_reaches(pu, smp) for pu in pushes)
+                    h = accepts(hook_filter, nme, smp)
+                    if c and not h:
+                        bad = (f"attribute named {smp!r} is collected but the setattr hook never names it: repr() of the "
+                               f"collected object is not a hierarchical name")
+                    elif h and not c:
+                        bad = f"attribute named {smp!r} is named by the hook but never collected"
                 if bad:
                     r.bad(fa.mod, fa.qual, cons, bad, fa.func.lineno)
                 else:
                     r.ok(fa.mod, fa.qual, f"{cons}: same name filter as the setattr hook")
             elif kind == 'tuple':
-                if any(rest for _, rest in seen['tuple']):
-                    r.bad(fa.mod, fa.qual, cons, "slice signals (tuple keys) are collected only under an extra condition",
-                          fa.func.lineno)
-                else:
-                    r.ok(fa.mod, fa.qual, cons)
+                r.ok(fa.mod, fa.qual, cons)
             else:
                 r.ok(fa.mod, fa.qual, cons)
     _floor(r, 18, repo)
     return r
+
+
+def _key_reaches(push, sample):
+    """is the push reachable for a __dict__ key with this value (the conditions on the key evaluated on the sample)"""
+    key, conds, _ = push
+    if key is None:
+        return True
+    env = {key: sample}
+    tags = {'str': lambda v: isinstance(v, str), 'tuple': lambda v: isinstance(v, tuple), 'int': lambda v: isinstance(v, int)}
+    for t, pol in conds:
+        try:
+            v = Evaluator(env, arith=True, leaf=_str_leaf(env), isinstance_tags=tags).ev(t)
+        except (TypeError, IndexError, AttributeError):
+            return False      # the test itself fails on this kind of key: the push is not reached
+        if bool(v) != pol:
+            return False
+    return True
 
 
 def _loop_escapes(L):
@@ -1792,7 +1795,10 @@ def _str_leaf(env):
         if isinstance(e, ast.Call) and isinstance(e.func, ast.Attribute) and e.func.attr == 'startswith' \
                 and isinstance(e.func.value, ast.Name) and e.func.value.id in env and len(e.args) == 1 \
                 and isinstance(e.args[0], ast.Constant):
-            return env[e.func.value.id].startswith(e.args[0].value)
+            v = env[e.func.value.id]
+            if not isinstance(v, str):
+                raise AttributeError('startswith')
+            return v.startswith(e.args[0].value)
         return NotImplemented
     return leaf
 
@@ -2293,6 +2299,11 @@ EQUIV = [
        "        ok = filt( u )\n        if ok:\n          ret.add( u )\n"),
     _m('list-arm-continue-on-plain-data', NAMED, "            Q.extend( (v, indices+(i,)) for i, v in enumerate(u) )\n",
        "            Q.extend( (v, indices+(i,)) for i, v in enumerate(u) )\n\n          else:\n            continue\n"),
+    _m('collector-key-tests-merged', NAMED,
+       "          if   isinstance( name, str ):\n            if name[0] != '_': # filter private variables\n              stack.append( obj )\n\n"
+       "          elif isinstance( name, tuple ): # name = [1:3]\n            stack.append( obj )\n",
+       "          if ( isinstance( name, str ) and name[0] != '_' ) or \\\n             isinstance( name, tuple ):\n            stack.append( obj )\n",
+       count='first'),
     _m('add-name-by-fstring', COMP, 'obj._dsl.full_name = ( parent._dsl.full_name + "." + u_name )',
        'obj._dsl.full_name = f"{parent._dsl.full_name}.{u_name}"'),
     _m('add-walk-bound-rearranged', COMP, "      while i < len(indices) - 1:", "      while i + 1 < len(indices):"),
